@@ -400,7 +400,7 @@ def plss_project(d, a):
     for t in d.tracts:
         tracts.append({
             "trs": _chars(t.trs), "attrs": trs_attrs_from_obj(t),
-            "whole": _is_whole(t.desc, pp),
+            "whole": _is_whole(t.desc, pp), "verbatim": t.desc == pp,
             "orig_ok": t.orig_desc == a["text"], "source_ok": t.source == a.get("source", "SRC-1"),
             "index": t.orig_index if isinstance(t.orig_index, int) else -1,
             "markers": [m for m in marks if isinstance(t.desc, str) and R.marker(m) in t.desc],
@@ -478,7 +478,7 @@ def plss_entry(case):
             n = 1
         o["exc"] = "none"
         # one dummy well-formed tract per produced tract so that AtLeastOneTract can be evaluated
-        o["tracts"] = [{"trs": list("XXXzXXXzXX"), "whole": False, "orig_ok": True, "source_ok": True, "index": i,
+        o["tracts"] = [{"trs": list("XXXzXXXzXX"), "whole": False, "verbatim": False, "orig_ok": True, "source_ok": True, "index": i,
                         "markers": [], "wflags": [], "eflags": [], "wfirsts": [], "efirsts": [], "typed": True,
                         "attrs": {}} for i in range(min(n, 3))]
         o["raw"] = {"n": n}
@@ -633,21 +633,31 @@ def _c13_run(scn, table):
     def val(ch):
         if scn["ch"] == ch:
             return scn["v"]
-        if scn["ch2"] == ch:
+        if scn["ch2"] == ch and scn.get("s2", s) == s:
             return scn["v2"]
         return None
 
+    s2 = scn.get("s2", s)
+
+    def one(s_, v):
+        cv = _c13_concrete(s_, v)
+        if s_ in CFG_BOOLS:
+            return s_ if cv else "%s.False" % s_
+        if s_ in ("default_ns", "default_ew", "layout"):
+            return cv
+        return "%s.%d" % (s_, cv)
+
     def cfgtext(v):
-        if v is None:
-            return None
-        cv = _c13_concrete(s, v)
-        if s in CFG_BOOLS:
-            return s if cv else "%s.False" % s
-        if s in ("default_ns", "default_ew"):
-            return cv
-        if s == "layout":
-            return cv
-        return "%s.%d" % (s, cv)
+        return None if v is None else one(s, v)
+
+    def cfgtext_ch(ch):
+        """config text of a channel: the setting itself and, in a related-settings scenario, the related one"""
+        parts = []
+        if scn["ch"] == ch or (scn["ch2"] == ch and s2 == s):
+            parts.append(one(s, val(ch)))
+        if scn["ch2"] == ch and s2 != s:
+            parts.append(one(s2, scn["v2"]))
+        return ",".join(parts) or None
 
     init_kw = {}
     if val("init_kw") is not None:
@@ -662,13 +672,13 @@ def _c13_run(scn, table):
         if target == "plss":
             text = C13_TEXTS[s]
             base_cfg = "parse_qq" if s in _TRACT_LEVEL else None
-            ic = ",".join(x for x in (base_cfg, cfgtext(val("init_config"))) if x) or None
+            ic = ",".join(x for x in (base_cfg, cfgtext_ch("init_config")) if x) or None
             if s == "wait_to_parse":
                 d = pytrs.PLSSDesc(text, config=ic, **init_kw)
             else:
                 d = pytrs.PLSSDesc(text, config=ic, wait_to_parse=True, **init_kw)
-                if val("assign_config") is not None:
-                    d.config = cfgtext(val("assign_config"))
+                if cfgtext_ch("assign_config") is not None:
+                    d.config = cfgtext_ch("assign_config")
                 d.parse(**parse_kw)
                 if scn.get("again"):
                     d.parse()
@@ -677,9 +687,9 @@ def _c13_run(scn, table):
                     tuple(sorted(map(repr, d.w_flags))), tuple(sorted(map(repr, d.e_flags))))
         else:
             text = C13_TRACT_TEXTS[s]
-            t = pytrs.Tract(text, "154n97w14", config=cfgtext(val("init_config")), **init_kw)
-            if val("assign_config") is not None:
-                t.config = cfgtext(val("assign_config"))
+            t = pytrs.Tract(text, "154n97w14", config=cfgtext_ch("init_config"), **init_kw)
+            if cfgtext_ch("assign_config") is not None:
+                t.config = cfgtext_ch("assign_config")
             if s != "parse_qq":
                 t.parse(**parse_kw)
                 if scn.get("again"):
@@ -700,7 +710,7 @@ def c13_scenario(case):
     default = dict(a["ref"], v=None, ch="none")
     default["ch"] = "none"
     fd, ed, rd = _c13_run({"target": a["scn"]["target"], "s": a["scn"]["s"], "v": "unset", "ch": "none",
-                           "ch2": "none", "v2": "unset"}, table)
+                           "ch2": "none", "s2": a["scn"]["s"], "v2": "unset"}, table)
     return {"fp_obs": fo, "exc_obs": eo, "fp_ref": fr, "exc_ref": er, "fp_default": fd,
             "raw_obs": ro, "raw_ref": rr}
 
